@@ -93,11 +93,21 @@ fn menu_len(api: usize) -> usize {
     }
 }
 
+/// Classes beyond the cube menu: they are crossed with one other endpoint's full menu (and a
+/// third endpoint that holds nothing or the authentic answer) instead of the full cube.
+fn extra_len(api: usize) -> usize {
+    match api {
+        1..=3 => 2,
+        4 => 1,
+        _ => 0,
+    }
+}
+
 fn menu_name(api: usize, v: usize) -> &'static str {
     match api {
         0 => ["no-value", "right-value", "other-bytes", "bit-flip", "value-of-other-target", "empty", "mutable-reply", "peers-reply"][v],
-        1..=3 => ["no-value", "right-item", "other-key-valid", "other-salt", "seq-altered", "value-altered", "sig-altered", "bad-curve-point", "unsalted-slot-item", "immutable-reply"][v],
-        _ => ["valid", "valid+forged", "forged+valid", "other-infohash", "key-sig-mismatch", "ts-altered", "empty-list", "peers-reply", "15-valid+forged-last", "16-valid"][v],
+        1..=3 => ["no-value", "right-item", "other-key-valid", "other-salt", "seq-altered", "value-altered", "sig-altered", "bad-curve-point", "unsalted-slot-item", "immutable-reply", "right-binary-item", "binary-value-byte-swapped"][v],
+        _ => ["valid", "valid+forged", "forged+valid", "other-infohash", "key-sig-mismatch", "ts-altered", "empty-list", "peers-reply", "15-valid+forged-last", "16-valid", "same-key-twice-older-first"][v],
     }
 }
 
@@ -157,7 +167,16 @@ fn forged_fields(api: usize, v: usize, now_micros: u64) -> Vec<(&'static str, B)
                 // an authentic item of the same key published WITHOUT salt (replay across salts),
                 // for the unsalted API: an authentic item published WITH a salt
                 8 => mitem(&k.sk, &k.pk, 7, b"from the other slot", if salt.is_some() { None } else { Some(SALT) }),
-                _ => vec![("v", B::bytes(IMM))],
+                9 => vec![("v", B::bytes(IMM))],
+                // a value that is not text: authentic ...
+                10 => mitem(&k.sk, &k.pk, 4, &[0xff, 0x01, 0x80, 0xf0, 0x90, 0x80], salt),
+                // ... and the same key, seq and signature replayed over a value in which invalid
+                // UTF-8 bytes were swapped for other invalid ones
+                _ => {
+                    let mut f = mitem(&k.sk, &k.pk, 4, &[0xff, 0x01, 0x80, 0xf0, 0x90, 0x80], salt);
+                    f[2] = ("v", B::bytes([0xfe, 0x01, 0x81, 0xf0, 0x90, 0x41]));
+                    f
+                }
             }
         }
         _ => {
@@ -178,8 +197,15 @@ fn forged_fields(api: usize, v: usize, now_micros: u64) -> Vec<(&'static str, B)
                 5 => vec![("peers", B::List(vec![rec(&k.sk, &k.pk, &INFOHASH, now_micros, now_micros + 1)]))],
                 6 => vec![("peers", B::List(vec![]))],
                 7 => vec![("values", B::List(vec![B::bytes([1, 2, 3, 4, 0, 80])]))],
+                // (10: see below)
                 // long lists (16 records is about what fits a datagram next to the node list):
                 // every record must be verified, not only the first few
+                10 => {
+                    // two genuine records of one key, the older first (a store keyed by public key
+                    // never sends that; a reader must not fuse them into a record nobody signed)
+                    let older = now_micros.saturating_sub(5_000_000);
+                    vec![("peers", B::List(vec![rec(&k.sk, &k.pk, &INFOHASH, older, older), valid]))]
+                }
                 8 | 9 => {
                     let mut l: Vec<B> = (0..15u8)
                         .map(|i| {
@@ -422,6 +448,31 @@ fn configs(tier: Tier) -> Vec<Cfg> {
                     // the same lookups through the blocking API
                     if join <= 1 && (!tier.is_quick() || order % 3 == join) {
                         v.push(Cfg { api, answers: answers.clone(), order, join, sync: true });
+                    }
+                }
+            }
+        }
+    }
+    // classes beyond the cube menu
+    for api in 0..5 {
+        let ml = menu_len(api);
+        let authentic = if api == 4 { 0 } else { 1 };
+        for extra in ml..ml + extra_len(api) {
+            for pos in 0..n {
+                for x in 0..ml + extra_len(api) {
+                    for y in [if api == 4 { 6 } else { 0 }, authentic] {
+                        let mut answers = vec![0usize; n];
+                        answers[pos] = extra;
+                        answers[(pos + 1) % n] = x;
+                        answers[(pos + 2) % n] = y;
+                        for order in 0..orders {
+                            for (join, sync) in [(0, false), (1, false), (0, true)] {
+                                if tier.is_quick() && join + (sync as usize) > 0 && order % 2 == 1 {
+                                    continue;
+                                }
+                                v.push(Cfg { api, answers: answers.clone(), order, join, sync });
+                            }
+                        }
                     }
                 }
             }
